@@ -5,7 +5,8 @@ import aops
 from check import standard_run, generic_replay
 
 MODULE = "TraceAutomata"
-FAMS = [("Sat3", {}), ("Bool", {}), ("RatU", {"eps_acyclic": True}), ("Sat2", {}), ("Rat", {"eps_acyclic": True})]
+FAMS = [("Sat3", {}), ("Bool", {}), ("RatU", {"eps_acyclic": True, "eps_loop": 0.3}), ("Sat2", {}),
+        ("Rat", {"eps_acyclic": True, "eps_loop": 0.3})]
 
 
 def generate(rng, tier, shard, nshards):
